@@ -75,8 +75,15 @@ func runC19(c map[string]interface{}) []Event {
 			ids = append(ids, id)
 		}
 		e["route"] = ids
-		e["dist"] = int(math.Round(dist))
-		e["time4"] = int(math.Round(tm * 4))
+		// (a non-finite total has no integer form: it is reported as -7777, which no route can have)
+		fin := func(v float64) int {
+			if math.IsNaN(v) || math.IsInf(v, 0) || math.Abs(v) > 1e9 {
+				return -7777
+			}
+			return int(math.Round(v))
+		}
+		e["dist"] = fin(dist)
+		e["time4"] = fin(tm * 4)
 		e["exact"] = dist == math.Round(dist) && tm*4 == math.Round(tm*4)
 	})
 	return []Event{e}
